@@ -28,9 +28,11 @@ _cond_jump = {
     "POP_JUMP_BACKWARD_IF_NOT_NONE",
     "POP_JUMP_FORWARD_IF_NONE",
     "POP_JUMP_BACKWARD_IF_NONE",
+    "POP_JUMP_IF_NOT_NONE",
+    "POP_JUMP_IF_NONE",
 }
 _uncond_jump = {"JUMP_ABSOLUTE", "JUMP_FORWARD", "JUMP_BACKWARD"}
-_terminating = {"RETURN_VALUE"}
+_terminating = {"RETURN_VALUE", "RETURN_CONST"}
 
 
 def is_conditional_jump(opname: str) -> bool:
